@@ -41,6 +41,7 @@ type Obligation struct {
 }
 
 type FuncCtx struct {
+	parentLocals     map[string]SVal // closure verified on its own: locals of the enclosing function it does not capture (constants)
 	p                *Program
 	top              *ssa.Function
 	contract         *Contract
@@ -222,6 +223,7 @@ func VerifyFunction(p *Program, fn *ssa.Function, c *Contract) (fc *FuncCtx, err
 			unsupp("free variable %s of type %s", fv.Name(), fv.Type())
 		}
 	}
+	fc.bindParentLocals(fn, c, st)
 	fc.entry = st.clone()
 	fc.entryArgs = args
 	fr.entrySt = fc.entry
@@ -421,7 +423,69 @@ func bindStructResult(vars map[string]SVal, rv *types.Var, i int, v Val) {
 	}
 }
 
+// bindParentLocals: a function literal verified on its own whose contract has `preserves` clauses (an invariant
+// shared with the enclosing function, e.g. its `goinv`) may name locals and parameters of the ENCLOSING function that
+// it does not capture. The literal cannot assign such a variable, so during one activation it is a constant: an
+// unconstrained value of its type (one per name, created here; names declared more than once in the enclosing
+// function, and names of captured variables or parameters of the literal, are left out).
+func (fc *FuncCtx) bindParentLocals(fn *ssa.Function, c *Contract, st *State) {
+	par := fn.Parent()
+	if par == nil || c == nil || len(c.Preserves) == 0 {
+		return
+	}
+	own := map[string]bool{}
+	for _, fv := range fn.FreeVars {
+		own[fv.Name()] = true
+	}
+	for _, prm := range fn.Params {
+		own[prm.Name()] = true
+	}
+	typs := map[string]types.Type{}
+	count := map[string]int{}
+	for _, b := range par.Blocks {
+		for _, ins := range b.Instrs {
+			if a, ok := ins.(*ssa.Alloc); ok && a.Comment != "" && !own[a.Comment] {
+				count[a.Comment]++
+				typs[a.Comment] = a.Type()
+			}
+		}
+	}
+	for _, l := range par.Locals {
+		if l.Comment != "" && !own[l.Comment] {
+			count[l.Comment]++
+			typs[l.Comment] = l.Type()
+		}
+	}
+	var names []string
+	for n := range typs {
+		if count[n] == 1 {
+			names = append(names, n)
+		}
+	}
+	sort.Strings(names)
+	fc.parentLocals = map[string]SVal{}
+	for _, n := range names {
+		pt := typs[n].Underlying().(*types.Pointer)
+		if isCellType(pt.Elem()) {
+			if sortOf(pt.Elem()) == nil {
+				continue
+			}
+			if v := fc.freshVal("outer."+n, pt.Elem(), st); v.T != nil {
+				fc.parentLocals[n] = SVal{T: v.T, Typ: pt.Elem()}
+			}
+		} else if v := fc.freshVal("outer."+n, typs[n], st); v.T != nil {
+			st.assume(Neq(v.T, IntLit(0))) // the address of a variable is never nil
+			fc.parentLocals[n] = SVal{T: v.T, Typ: typs[n]}
+		}
+	}
+}
+
 func (fc *FuncCtx) lookupFree(fr *Frame, st *State, name string) (SVal, bool) {
+	if fr.isTop {
+		if v, ok := fc.parentLocals[name]; ok {
+			return v, true
+		}
+	}
 	for _, fv := range fr.fn.FreeVars {
 		if fv.Name() == name {
 			lv := fr.regs[fv]
@@ -491,6 +555,11 @@ func (fc *FuncCtx) lookupLocalAt(fr *Frame, st *State, name string, at token.Pos
 			if lv.T != nil {
 				return SVal{T: lv.T, Typ: fv.Type()}, true
 			}
+		}
+	}
+	if fr.isTop {
+		if v, ok := fc.parentLocals[name]; ok {
+			return v, true
 		}
 	}
 	if fr.parent != nil {
